@@ -16,6 +16,8 @@ SAFE = 1.0 + 1e-7          # the search decides with a small margin so that the 
 
 
 def coef_of(fam, fn):
+    if fam == "Rastrigin":
+        return {}
     if fam == "Hill":
         import iOpt.problems.Hill.hill_generation as g
         return {"A": [float(t) for t in g.aHill[fn]], "B": [float(t) for t in g.bHill[fn]]}
@@ -24,6 +26,8 @@ def coef_of(fam, fn):
 
 
 def tables_of(fam, fn):
+    if fam == "Rastrigin":
+        return ([0.0, 0.0], None, None)
     if fam == "Hill":
         import iOpt.problems.Hill.hill_generation as g
         return ([float(t) for t in g.minHill[fn]], [float(t) for t in g.maxHill[fn]], float(g.lConstantHill[fn]))
@@ -32,10 +36,12 @@ def tables_of(fam, fn):
     return ([float(t) for t in g.minShekel[fn]], [float(t) for t in g.maxHill[fn]], float(g.lConstantHill[fn]))
 
 
-def bounds(fam, coef):
+def bounds(fam, coef, a=0.0, b=1.0):
     L = []
     for n in (1, 2, 3, 4):
-        if fam == "Hill":
+        if fam == "Rastrigin":
+            L.append(((2 * max(abs(a), abs(b)) if n == 1 else (2.0 if n == 2 else 0.0)) + 10 * (2 * PI_HI) ** n) * SAFE)
+        elif fam == "Hill":
             L.append(sum((2 * PI_HI * i) ** n * (abs(a) + abs(b)) for i, (a, b) in enumerate(zip(coef["A"], coef["B"]))) * SAFE)
         else:
             L.append(sum(math.factorial(n) * math.sqrt(k) ** n / (c * math.sqrt(c) ** n) for k, c in zip(coef["K"], coef["C"])) * SAFE)
@@ -114,7 +120,8 @@ def enc(cells):
     return [[q(c[0]), q(c[1]), q(c[2]), q(c[3]), q(c[4])] for c in cells]
 
 
-def min_certificate(cx, g, a, b, x, v, tv, delta):
+def min_certificate(cx, g, a, b, x, v, tv, delta, tvlow=None):
+    tvlow = tv if tvlow is None else tvlow
     h = cx.h
     fdecl = g(x)
     cert = {"v": q(v), "x": q(x), "fdecl": q(fdecl), "d": [q(g(x - h)), q(g(x + h))], "wit": [], "refute": []}
@@ -173,7 +180,7 @@ def min_certificate(cx, g, a, b, x, v, tv, delta):
                  "coverL": enc(cl), "coverR": enc(cr)})
     # an observed value below the declared minimum (witness for a refutation of the value)
     best = min([(c[3], (c[0] + c[1]) / 2) for c in cl + cr + conv] + [(fdecl, x)])
-    if best[0] + EPSF < v - tv:
+    if best[0] + EPSF < v - tvlow:
         cert["wit"] = [q(best[1]), q(best[0])]
     # refutation of the location: one certified sign of f' on the whole delta-neighbourhood
     located = gl and gr and conv is not None and (mode == "monotone" or not sides_ok)
@@ -206,25 +213,29 @@ def lip_certificate(cx, f, a, b, Ldecl, rel):
     return {"L": q(Ldecl), "xw": q(best[1]), "wit": [q(best[2][0]), q(best[2][1])], "cells": enc(sorted(cells))}
 
 
-def build_record(tid, fam, fn, tv, delta_rel, rel, parts=("min", "max", "lip"), tables=None):
+def build_record(tid, fam, fn, tv, delta_rel, rel, parts=("min", "max", "lip"), tables=None, tvlow_rel=None, declared=False):
     """tables: optional override (min row, max row, L) - used by the self-test to corrupt a table entry"""
     from .problems_drv import families
     prob = families()[fam][0](fn)
     # the object is used among siblings, as in a benchmark loop that builds the problem set first: the table row must
     # describe what THIS object computes whatever other members exist
-    _siblings = [families()[fam][0]((fn + 1) % 1000), families()[fam][0]((fn + 501) % 1000)]
+    _siblings = [families()[fam][0]((fn + 1) % 1000), families()[fam][0]((fn + 501) % 1000)] if fam != "Rastrigin" else []
     a, b = float(prob.lowerBoundOfFloatVariables[0]), float(prob.upperBoundOfFloatVariables[0])
     coef = coef_of(fam, fn)
     tmin, tmax, tl = tables or tables_of(fam, fn)
-    L = bounds(fam, coef)
-    h = 2.0 ** -16 if fam == "Hill" else 2.0 ** -13
+    if declared:       # C10: the optimum the problem object declares (knownOptimum), not the table row
+        ko = prob.knownOptimum[0]
+        tmin = [float(ko.functionValues[0].value), float(ko.point.floatVariables[0])]
+    tvlow = tv if tvlow_rel is None else tvlow_rel * max(1.0, abs(tmin[0]))
+    L = bounds(fam, coef, a, b)
+    h = 2.0 ** -13 if fam == "Shekel" else 2.0 ** -16
     cx = Ctx1D(fam, L, h)
     delta = delta_rel * (b - a)
     rec = {"tid": tid, "fam": fam, "fn": int(fn), "a": q(a), "b": q(b), "h": q(h), "epsf": q(EPSF),
-           "coef": {k: [q(t) for t in v] for k, v in coef.items()}, "tv": q(tv), "delta": q(delta), "rel": q(rel)}
+           "coef": {k: [q(t) for t in v] for k, v in coef.items()}, "tv": q(tv), "tvlow": q(tvlow), "delta": q(delta), "rel": q(rel)}
     f = Sampler(prob, +1)
     if "min" in parts:
-        rec["min"] = min_certificate(cx, f, a, b, tmin[1], tmin[0], tv, delta)
+        rec["min"] = min_certificate(cx, f, a, b, tmin[1], tmin[0], tv, delta, tvlow)
     if "max" in parts:
         g = Sampler(prob, -1)
         rec["max"] = min_certificate(cx, g, a, b, tmax[1], -tmax[0], tv, delta)
